@@ -19,10 +19,12 @@ static void build(void) {
     if (!tier && len >= 5) continue;
     add(tier, O[i], W, K);
   }
+  /* "#": counters of different sizes initialised by different threads at the same time (their initialisation shares nothing) */
+  for (int tier = 0; tier < 2; tier++) add(tier, "#", 2, tier ? 2 : 1);
 }
 static int nprogs(int tier) { build(); return NP[tier]; }
 static void config(int tier, int prog, int * W, int * K) { build(); *W = P[tier][prog].W; *K = P[tier][prog].K; }
-static void describe(int tier, int prog, char * b, size_t n) { build(); prog_t * p = &P[tier][prog]; snprintf(b, n, "join-counter N=%d creation order '%s' + late wait by main", p->N, p->order); }
+static void describe(int tier, int prog, char * b, size_t n) { build(); prog_t * p = &P[tier][prog]; if (p->order[0] == '#') snprintf(b, n, "join counters for 1000 and for 1 decrements initialised by two threads at the same time"); else snprintf(b, n, "join-counter N=%d creation order '%s' + late wait by main", p->N, p->order); }
 static prog_t * cur; static myth_join_counter_t jc;
 static volatile int dec_started, dec_finished, released;
 static void * decr(void * a) { (void)a; mv_point(&dec_started, sizeof(int)); dec_started++; myth_join_counter_dec(&jc); dec_finished++; return 0; }
@@ -35,9 +37,35 @@ static void * waiter(void * a) {
   released++;
   return 0;
 }
+/* concurrent initialisation of independent counters */
+static myth_join_counter_t ci[3]; static volatile int ci_ready, ci_started;
+static void * ci_big(void * a) {
+  (void)a;
+  h_join_counter_init(&ci[0], 0, 1000);
+  mv_point(&ci_ready, sizeof(int)); ci_ready = 1;
+  while (!ci_started) mv_wait_until_changed(&ci_started, sizeof(int));
+  h_join_counter_init(&ci[1], 1, 1000);                         /* while the other thread is inside its own initialisation */
+  for (int k = 0; k < 2; k++) MV_CHECK(ci[k].n_threads_bits >= 10, "a counter initialised for 1000 decrements got a %d-bit field", (int)ci[k].n_threads_bits);
+  return 0;
+}
+static void * ci_small(void * a) {
+  (void)a;
+  while (!ci_ready) mv_wait_until_changed(&ci_ready, sizeof(int));
+  mv_point(&ci_started, sizeof(int)); ci_started = 1;
+  h_join_counter_init(&ci[2], 0, 1);
+  myth_join_counter_dec(&ci[2]); myth_join_counter_wait(&ci[2]);
+  return 0;
+}
+static void run_concurrent_init(void) {
+  myth_thread_t a = myth_create(ci_big, 0), b = myth_create(ci_small, 0);
+  myth_join(a, 0); myth_join(b, 0);
+  mv_obs("concurrent init ok");
+  mv_finish();
+}
 static void run(int tier, int prog) {
   build(); cur = &P[tier][prog];
   mv_start(cur->W);
+  if (cur->order[0] == '#') { run_concurrent_init(); return; }
   h_maybe_custom_steal(prog, cur->W);
   h_join_counter_init(&jc, prog & 1, cur->N);
   static h_sentinel_t sent; h_sentinel_start(&sent, 7, prog);
